@@ -359,6 +359,9 @@ Step ==
             /\ stats' = [stats EXCEPT !.decided = @ + (IF Decidable(cell) /\ DOMAIN acc # {} THEN 1 ELSE 0)]
             /\ cell' = NoCell /\ info' = NoCell /\ acc' = <<>> /\ failW' = 0 /\ cutW' = 0 /\ totW' = 0 /\ nleaf' = 0 /\ UNCHANGED prevG
             /\ lineReal' = {} /\ linePred' = {}
+       [] e.op = "hang" ->   \* a call of a history did not return although the same call returned at once before an earlier call failed
+            /\ bad' = bad \o <<Bad(l, "P:C15:a-call-made-after-an-earlier-call-failed-never-returns")>>
+            /\ UNCHANGED <<cell, info, acc, failW, cutW, totW, nleaf, stats, prevG, lineReal, linePred>>
        [] OTHER -> /\ bad' = bad \o <<Bad(l, "H:unknown-op")>>
                    /\ UNCHANGED <<cell, info, acc, failW, cutW, totW, nleaf, stats, prevG, lineReal, linePred>>
   /\ l' = l + 1 /\ UNCHANGED done
